@@ -171,6 +171,11 @@ impl Slaac {
             return;
         }
 
+        // The prefix length comes straight from the wire: `Ipv6Cidr::new` panics above 128.
+        if prefix.prefix_len > 128 {
+            return;
+        }
+
         let cidr = Ipv6Cidr::new(prefix.prefix, prefix.prefix_len);
 
         if prefix.valid_lifetime > Duration::ZERO {
